@@ -21,6 +21,20 @@ Print Assumptions C03_plain_sibling_unchanged.
 Theorem C03_orphan_else_dropped : forall n r, elseish n = true -> S_ (n :: r) = S_ r.
 Proof. exact spec_orphan. Qed.
 Print Assumptions C03_orphan_else_dropped.
+(* a sibling carrying v-for is not a chain member: one instance per item, the rest unchanged; an empty loop
+   hands over to a v-else that is the very next element and to nothing else *)
+Theorem C03_loop_sibling : forall n i r, S_ (NFor (S n) i :: r) = rep_id (S n) i ++ S_ r.
+Proof. exact spec_for_items. Qed.
+Print Assumptions C03_loop_sibling.
+Theorem C03_empty_loop_else : forall i j r, S_ (NFor 0 i :: NElse j :: r) = j :: S_ r.
+Proof. exact spec_for_empty_else. Qed.
+Print Assumptions C03_empty_loop_else.
+Theorem C03_empty_loop_no_else : forall i r, match r with NElse _ :: _ => False | _ => True end -> S_ (NFor 0 i :: r) = S_ r.
+Proof. exact spec_for_empty_other. Qed.
+Print Assumptions C03_empty_loop_no_else.
+Example C03_empty_loop_then_chain :
+  E [NFor 0 1; NOther 2; NPlain 3; NIf true 4; NOther 5; NElse 6; NPlain 7] = [3; 4; 7].
+Proof. vm_compute. reflexivity. Qed.
 
 (* 4. truthiness.  The property's table: falsy = false, numeric zero of any kind, "", nil (and
    undefined).  The code also makes the string "false" falsy (pinned by TestIsTruthy): the full
